@@ -67,7 +67,7 @@ func C08(c *Ctx) {
 	r.Technique = "typestate abstract interpretation of the seed-growing loop (position, state store, error list at return = those recorded with the returned result) and of the rule dispatch in the 8 LeftRecursion variants; guard agreement in parseExprWrap"
 	r.Explanation = "Termination and longest match over all operand shapes are behavioural and not decided. Decided: (a) nothing of the final, non-extending growth attempt is retained: on every return of the leader routine the position, the state store and the error list are exactly those recorded when the returned result was accepted, the result is memoised under the start position, and a memo hit restores the stored end; (b) expression memoisation is disabled inside left-recursive rules consistently (same guard at lookup and store, derived from the rule on top of the rule stack); (c) dispatch: leader rules go to the leader routine, other left-recursive rules are evaluated plainly (never through the rule memo), in every LeftRecursion variant; (d) the growth loop continues only when the attempt succeeded and (after the seed) ended strictly beyond the previous end. Equivalence with -optimize-parser is C10."
 	r.Assumptions = []string{"induction hypothesis on parseRule"}
-	r.Rule("C08-a", "every non-memo return of parseRuleRecursiveLeader has pt = lastResult.end, state store and *p.errs as when lastResult was recorded; returns lastResult.v, lastResult.b; last setMemoized is keyed by the start mark")
+	r.Rule("C08-a", "every non-memo return of parseRuleRecursiveLeader has pt = lastResult.end, state store and *p.errs as when lastResult was recorded; returns lastResult.v, lastResult.b; the memo table is total (setMemoized stores on every path, getMemoized returns what was stored), so each growth step replaces the seed; last setMemoized is keyed by the start mark")
 	r.Rule("C08-b", "parseExprWrap (LeftRecursion, not Optimize): isLeftRecursion := p.rstack[top].leftRecursive and both memo guards are `p.memoize && !isLeftRecursion`")
 	r.Rule("C08-c", "parseRuleWrap: leader routine iff rule.leader (within left-recursive or memoised dispatch); parseRuleMemoize only when !rule.leftRecursive; each path evaluates the rule exactly once; parseRuleRecursiveNoLeader is parseRule")
 	r.Rule("C08-d", "the growth loop breaks unless ok && (depth == 0 || endMark.offset > lastResult.end.offset); lastResult/lastErrors are updated and the position reset to the start mark only on the continuing path")
@@ -90,6 +90,7 @@ func C08(c *Ctx) {
 		n++
 		c.undecidedExits("C08-a", a, "parseRuleRecursiveLeader")
 		leaderFinalAttempt(c, a, "C08-a")
+		memoTableTotal(c, v, "C08-a")
 		// ---- b
 		if !v.Params.Optimize {
 			fd := v.Func("parser", "parseExprWrap")
